@@ -17,7 +17,7 @@ from mc import data, zoo
 PID = 'C16'
 LEVEL = 'exploration'
 RULE = ('all multisets of size 2..N (N = 5 quick, 7 thorough) over {4 distance levels} x {+1,-1} containing both '
-        'labels, in sorted and in reversed-interleaved array order, x strategies {accuracy, f_beta(beta in 0,1/2,1,2), '
+        'labels (levels: 0, 1, 1 + 2^-30, 3 times a fixed distance), in sorted and in reversed-interleaved array order, x strategies {accuracy, f_beta(beta in 0,1/2,1,2), '
         'max_tpr / max_tnr (min_rate in 0,1/4,1/3,1/2,1)}; signature = (strategy, ordinal tie pattern with labels, '
         'whether the optimum is reject-all / accept-all / interior); non-trivial = at least two attainable cut-offs '
         'give different criterion values')
@@ -26,6 +26,8 @@ ASSUMPTIONS = ['Ground-truth distances are the ones pair_distance returns for th
                'A min_rate constraint whose exact and floating evaluation could differ (|rate - min_rate| < 1e-9, '
                'not equal) is counted ambiguous and not judged.']
 BOUNDS = {'quick': dict(max_size=5, datasets=['S3u']), 'thorough': dict(max_size=7, datasets=['S3u', 'S5'])}
+# distance levels: identical points, two levels that differ by 2^-30 relative (a NEAR tie, not a tie), a clearly larger one
+LEVELS = [0.0, 1.0, 1.0 + 2.0 ** -30, 3.0]
 BETAS = [0.0, 0.5, 1.0, 2.0]
 RATES = [0.0, 0.25, 1.0 / 3.0, 0.5, 1.0]
 STRATS = ([('accuracy', {})] + [('f_beta', {'beta': b}) for b in BETAS]
@@ -129,7 +131,7 @@ def run_case(spec):
         for m in spec[3]:
             for order in ('sorted', 'mixed'):
                 idx = list(m) if order == 'sorted' else list(m)[::2][::-1] + list(m)[1::2]
-                lv = np.array([syms[i][0] for i in idx], dtype=float)
+                lv = np.array([LEVELS[syms[i][0]] for i in idx], dtype=float)
                 y = np.array([syms[i][1] for i in idx])
                 pairs = np.stack([np.zeros((len(idx), ds.d)), lv[:, None] * v[None, :]], axis=1)
                 dist = est.pair_distance(pairs)
@@ -202,7 +204,14 @@ def run_case(spec):
                             est.fit(pairs, y)
                             strat_eff, par_eff = 'accuracy', {}
                         else:
-                            est.fit(pairs, y, calibration_params=dict(strategy=strat, **params))
+                            cp = dict(strategy=strat, **params)
+                            cp0 = dict(cp)
+                            zoo.make(name, ds).fit(pairs, y, calibration_params=cp)   # a first fit given this dict object
+                            est.fit(pairs, y, calibration_params=cp)                  # ... and a second one given the SAME object
+                            if cp != cp0:
+                                viol.append(V('fit(calibration_params)', 'mutates_calibration_params',
+                                              'fit modified the calibration_params dict given by the caller (%r -> %r)' % (cp0, cp),
+                                              [strat, 'fitpath']))
                             strat_eff, par_eff = strat, params
                     except RuntimeError:
                         continue          # SDML may legitimately fail on noisy labels (C13 failure clause)
